@@ -446,7 +446,7 @@ def _inner_binders(node: ast.AST) -> set:
             return set().union(*[_inner_binders(a) for a in node.args])
     out = set()
     if isinstance(node, ast.Lambda):
-        out |= {a.arg for a in node.args.args}
+        out |= set(_lambda_parameters(node))
     elif isinstance(node, ast.comprehension):
         out |= {n.id for n in ast.walk(node.target) if isinstance(n, ast.Name)}
     for c in ast.iter_child_nodes(node):
